@@ -405,6 +405,16 @@ func (g *Gen) intents() []intent {
 			if g.rng.Intn(100) < 8 {
 				form[0].V = lit(pickS(g.rng, "", "notanemail", "a@b", "x@y.Z", " "))
 			}
+			if g.rng.Intn(100) < 10 { // a field left out altogether (absent, not empty)
+				drop := pickS(g.rng, "password", "password", "confirm_password", pf)
+				var f2 []KV
+				for _, kv := range form {
+					if kv.K != drop && !(drop == "password" && kv.K == "confirm_password" && g.rng.Intn(2) == 0) {
+						f2 = append(f2, kv)
+					}
+				}
+				form = f2
+			}
 			return one(g.req(g.browser(), "POST", "Register", form))
 		})
 	}
@@ -883,6 +893,24 @@ func (g *Gen) scenarios() []intent {
 			return out
 		})
 	}
+	if c.has("recover") {
+		// a recovery link past its validity: opening the form page must not revive it
+		add(boost(2, "tokens", "password"), func() []SymStep {
+			u := g.known()
+			b := g.browser()
+			np := lit("Toolate-1!Q")
+			tok := Desc{K: "mailtok", Kind: "recover", U: u}
+			pg := g.req(b, "GET", "RecoverEnd", nil)
+			pg.Req.Query = []KV{{"token", tok}}
+			end := g.req(b, "POST", "RecoverEnd", []KV{{"token", tok}, {"password", np}, {"confirm_password", np}})
+			out := []SymStep{g.req(b, "POST", "RecoverStart", []KV{{g.pidField(), Desc{K: "pid", U: u}}}),
+				{Kind: "tick", D: int64(c.RecoverDur) + []int64{1, 5, 700}[g.rng.Intn(3)]}, pg}
+			if g.rng.Intn(2) == 0 {
+				out = append(out, pg)
+			}
+			return append(out, end, g.loginStep(g.browser(), u, np, false))
+		})
+	}
 	if c.has("recover") || c.has("confirm") {
 		// every kind of near-miss of an outstanding token, then the genuine one (which must still work)
 		add(boost(3, "tokens"), func() []SymStep {
@@ -1039,8 +1067,17 @@ func (g *Gen) scenarios() []intent {
 			b2 := g.browser()
 			use := g.req(b2, "POST", "OtpLogin", []KV{{g.pidField(), Desc{K: "pid", U: u}}, {"password", Desc{K: "otp", U: u}}})
 			out = append(out, use)
-			if g.rng.Intn(2) == 0 {
-				out = append(out, g.req(g.browser(), "POST", "OtpLogin", []KV{{g.pidField(), Desc{K: "pid", U: u}}, {"password", Desc{K: "otp", U: u}}}))
+			usr := g.r.w.st.users[g.r.account(u).PID]
+			twofa := usr != nil && ((c.Totp && usr.TOTPSecretKey != "") || (c.Sms && usr.SMSPhoneNumber != ""))
+			if twofa { // the one-time password is only the first factor: the login completes at the second
+				out = append(out, g.validateStep(b2, u))
+			}
+			if g.rng.Intn(2) == 0 || twofa {
+				b3 := g.browser()
+				out = append(out, g.req(b3, "POST", "OtpLogin", []KV{{g.pidField(), Desc{K: "pid", U: u}}, {"password", Desc{K: "otp", U: u}}}))
+				if twofa {
+					out = append(out, SymStep{Kind: "tick", D: 31}, g.validateStep(b3, u))
+				}
 			}
 			return out
 		})
